@@ -15,6 +15,7 @@ from concurrent.futures import ThreadPoolExecutor
 import insights
 from harness.common import run_driver, VERIF, REPO
 from harness import dr_world as W
+from harness import dr_world_inc as WI
 from insights.core import dr
 
 
@@ -257,6 +258,27 @@ def run(chk):
                     raise AssertionError("_run(parallel=True) returned %r instead of the broker" % (type(out),))
                 del b.instances[Ctx]
             whole("_run(parallel)", entry)
+        _sset = set(world.comps[x] for x, _ in seeds)
+        # (a loaded component that directly depends on another loaded component of the graph is the shape DESIGN §6 leaves
+        # out on purpose: the pruning loop of dr.run raises KeyError on it, by ruling not held against the code)
+        _nested = any(d in _sset and d in graph for c in graph if c in _sset for d in graph[c])
+        if idx % 10 == 5 and not _nested:
+            # GLUE: the stand-alone entry point on a directory (insights._run -> process_dir -> initialize_broker), serial and
+            # on its thread pool: both hand the caller's broker back and agree with each other
+            arch = []
+            for par in (False, True):
+                ab, _att, awhy, aerr = W.archive_entry(world, graph, seeds, [], ss, parallel=par)
+                acase = dict(base_case, order=None, schedule="process_dir(parallel=%s)" % par)
+                if aerr is not None:
+                    chk.failure("insights._run on a directory (parallel=%s) raised %r" % (par, aerr), acase)
+                elif awhy:
+                    chk.failure("insights._run on a directory (parallel=%s): %s" % (par, awhy), acase)
+                else:
+                    arch.append(plain(W.canon_broker(world, ab)))
+            if len(arch) == 2 and arch[0] != arch[1]:
+                chk.failure("insights._run on a directory: the pooled evaluation differs from the serial one:\n  serial: %s\n  pooled: %s"
+                            % (arch[0], arch[1]), dict(base_case, order=None, schedule="process_dir(parallel=True)"))
+            chk.count("process_dir:serial+pooled")
         ref = results[0][1] if results else None
         for name, text, case in results[1:]:
             if text != ref:
@@ -308,6 +330,8 @@ def run(chk):
     chk.sample({"case": cases[0], "impl": impl[0]})
     chk.compare("get_subgraphs-vs-model", sub_cases, sub_impl, run_driver("Dr", sub_lines))
     chk.sample({"get_subgraphs": sub_lines[0].split("\t")[1:], "impl": sub_impl[0]})
+    # the incremental / pooled drivers called WITHOUT a broker (one broker per sub-graph handed back) and with one
+    fresh_broker_stream(chk, 160 if quick else 3000)
     # the default graph (no components given), with cluster-group components around, in fresh interpreters
     default_graph_cases(chk, 6 if quick else 60)
     # hash seeds: the same worlds regenerated and evaluated in child interpreters
@@ -374,6 +398,30 @@ def default_child(seed, idx):
     go("run_incremental()", lambda b: list(dr.run_incremental(broker=b)))
     go("run_all()", lambda b: dr.run_all(broker=b))
     go("run_all(pool)", lambda b: dr.run_all(broker=b, pool=DeferPool(random.Random(idx))))
+
+    # the same entry points WITHOUT a broker: the brokers handed back, taken together, against one pass on an empty broker
+    def go_fresh(name, fn):
+        try:
+            bs = fn()
+            if not isinstance(bs, list):
+                bs = [bs]
+            bad = [WI.shape_problem(b) for b in bs if WI.shape_problem(b)]
+            if bad:
+                out["results"][name] = "raised %s" % bad[0]
+                return
+            m, dup = WI.merged(world, bs)
+            text = WI.canon_plain(world, m, foreign=False)
+            if len(set(id(b) for b in bs)) != len(bs):
+                text += " SAME-OBJECT-TWICE"
+            if dup:
+                text += " DUPLICATED%s" % (dup,)
+            out["results"][name] = text
+        except Exception as ex:
+            out["results"][name] = "raised %r" % (ex,)
+    go_fresh("nobroker:run()", lambda: dr.run())
+    go_fresh("nobroker:run_incremental()", lambda: list(dr.run_incremental()))
+    go_fresh("nobroker:run_all()", lambda: dr.run_all())
+    go_fresh("nobroker:run_all(pool)", lambda: dr.run_all(pool=DeferPool(random.Random(idx))))
     out["cluster"] = [i for i, s_ in enumerate(spec) if s_.get("cluster")]
     sys.stdout.write(json.dumps(out))
 
@@ -405,10 +453,15 @@ def default_graph_oracle(d):
     ref = res["run()"]
     out = []
     for name, text in res.items():
-        if text != ref:
+        if name.startswith("nobroker:"):
+            ref0 = res.get("nobroker:run()")
+            if text != ref0:
+                out.append("default graph, no broker: the brokers %s hands back, taken together, differ from dr.run():\n  run(): %s\n  %s: %s"
+                           % (name[9:], ref0, name[9:], text))
+        elif text != ref:
             out.append("default graph: %s differs from dr.run():\n  run(): %s\n  %s: %s" % (name, ref, name, text))
     for name, text in res.items():
-        if text.startswith("raised"):
+        if text.startswith("raised") or name.startswith("nobroker:"):
             continue
         inst = W.split_text(text.replace("inst=", "inst=", 1))["inst"] if text.startswith("inst=") else ""
         got = set(int(x.split(":")[0]) for x in inst.split() if ":" in x)
@@ -417,6 +470,129 @@ def default_graph_oracle(d):
         if bad:
             out.append("default graph: %s evaluated the cluster-group component(s) %s (the default graph is the single group)" % (name, bad))
     return out
+
+
+
+def gen_fresh_world(seed, idx, tagp="c04fresh"):
+    """worlds for the broker-handling stream: 1..5 islands, no ignore entries (with no broker nothing is supplied up front)"""
+    import random
+    rng = random.Random("C04-fresh/%s/%d" % (seed, idx))
+    n = rng.randint(2, 14)
+    spec = W.gen_spec(rng, n, fault_rate=0.3, islands=rng.choice([1, 2, 2, 3, 4, 5]))
+    for s_ in spec:
+        s_.pop("ignore", None)
+    seeds = W.gen_seeds(rng, spec, rate=0.08)
+    targets = sorted(set(rng.randrange(n) for _ in range(rng.randint(2, 8))))
+    ss = rng.random() < 0.5
+    dropped = None
+    world = W.World(spec, "%s_%d_%d_%d" % (tagp, seed, idx, _fresh_counter[0]))
+    _fresh_counter[0] += 1
+    graph = world.graph_for(targets)
+    if idx % 5 == 1:
+        inner = sorted(set(world.ids[d] for v in graph.values() for d in v if d in graph))
+        if inner:
+            dropped = rng.choice(inner)
+            del graph[world.comps[dropped]]
+    return world, spec, seeds, targets, ss, graph, dropped, rng
+
+
+_fresh_counter = [0]
+
+
+def fresh_schedules(idx, dropped):
+    sch = ["run_incremental/list", "run_incremental/lazy", "run_all", "run_all/defer", "generate_incremental+run"]
+    if idx % 4 == 0:
+        sch.append("run_all/threads")
+    if idx % 3 == 1:
+        sch.append("run_all/sync-pool")
+    if idx % 6 == 2:
+        sch.append("run_all/falsy-pool")
+    if dropped is None and idx % 2 == 0:
+        sch.append("run_incremental(list of components)")
+    return sch
+
+
+def fresh_broker_stream(chk, n_worlds):
+    """
+    generate_incremental / run_incremental / run_all WITHOUT a broker: the brokers handed back are distinct objects, each
+    reports exactly its own connected sub-graph, together they report every component once and equal the single pass;
+    lazily consumed, on a deferring pool, on threads; WITH a broker: that object every time.  Tie: IV.Dr.runAllPool over
+    generateIncremental (Drivers/C04 `incr`): same identity pattern, same sub-graph per object, same contents.
+    """
+    lines, impl, cases = [], [], []
+    for idx in range(n_worlds):
+        world, spec, seeds, targets, ss, graph, dropped, rng = gen_fresh_world(chk.seed, idx)
+        base = {"op": "fresh-brokers", "verif_seed": chk.seed, "index": idx, "spec": W.strip(spec), "seeds": seeds,
+                "targets": targets, "store_skips": ss, "dropped": dropped}
+        sch = fresh_schedules(idx, dropped)
+        fails, rows = WI.fresh_check(world, graph, rng, sch, targets, ss, seeds)
+        for name, why in fails:
+            chk.failure(why, dict(base, schedule=name))
+        ncomp = len(WI.components_of(graph))
+        chk.count("fresh-brokers:sub-graphs:%d" % min(ncomp, 6))
+        chk.case(("fresh", rows[0][2] if rows else idx), nontrivial=ncomp >= 2)
+        lines.extend(world.lines([]))
+        for name, passed, text in rows:
+            if not passed:
+                lines.append(WI.incr_line(world, graph, False, False, "r" if name in ("generate_incremental+run", "run_all/defer") else "s"))
+                impl.append(text)
+                cases.append(dict(base, schedule=name, passed=False))
+        lines.extend(world.lines(seeds))
+        for name, passed, text in rows:
+            if passed:
+                lines.append(WI.incr_line(world, graph, True, ss, "s"))
+                impl.append(text)
+                cases.append(dict(base, schedule=name, passed=True))
+                chk.count("passed-broker-schedule")
+        # history: a datasource that already took part becomes one more implementation of a registry point (the sub-graphs
+        # may merge, the registry points of failures change); the same oracle and tie on the graph as it is afterwards
+        cands = world.late_candidates(set(world.ids[k] for k in graph)) if dropped is None else []
+        if cands and idx % 3 == 0:
+            pnt, dsid = rng.choice(cands)
+            world.late_register(pnt, dsid)
+            graph2 = world.graph_for(targets)
+            lbase = dict(base, late=[pnt, dsid])
+            fails2, rows2 = WI.fresh_check(world, graph2, rng, ["run_incremental/lazy", "run_all/defer"], targets, ss, seeds)
+            for name, why in fails2:
+                chk.failure("after a late registration: " + why, dict(lbase, schedule=name))
+            lines.extend(world.lines([]))
+            for name, passed, text in rows2:
+                if not passed:
+                    lines.append(WI.incr_line(world, graph2, False, False, "r" if name == "run_all/defer" else "s"))
+                    impl.append(text)
+                    cases.append(dict(lbase, schedule=name, passed=False))
+            chk.count("fresh-brokers:late-registration")
+    out = run_driver("C04", lines)
+    model = [o for l, o in zip(lines, out) if l.startswith("incr\t")]
+    bad = [o for l, o in zip(lines, out) if not l.startswith("incr\t") and o != "ok"]
+    if bad:
+        chk.tie_broken("protocol", "driver C04 rejected %d world lines" % len(bad), bad[:3])
+    chk.compare("incremental-brokers-vs-model", cases, impl, model)
+    if cases:
+        chk.sample({"incremental": cases[0]["schedule"], "impl": impl[0], "model": model[0]})
+
+
+def replay_fresh(case):
+    import random
+    world = W.World(W.unstrip(case["spec"]), "replayfresh%d" % W._replay_counter[0])
+    W._replay_counter[0] += 1
+    graph = world.graph_for(case["targets"])
+    if case.get("dropped") is not None:
+        graph.pop(world.comps[case["dropped"]], None)
+    seeds = [tuple(x) for x in case.get("seeds", [])]
+    if case.get("late"):
+        WI.fresh_check(world, graph, random.Random(0), ["run_incremental/list"], case["targets"], case["store_skips"], seeds)
+        world.late_register(*case["late"])
+        graph = world.graph_for(case["targets"])
+        print("history: evaluated incrementally, then datasource %s registered as an implementation of registry point %s" % (case["late"][1], case["late"][0]))
+    fails, rows = WI.fresh_check(world, graph, random.Random(0), list(WI.SCHEDULES) if case.get("dropped") is None else
+                                 [x for x in WI.SCHEDULES if "list of components" not in x], case["targets"], case["store_skips"], seeds)
+    for name, passed, text in rows:
+        print("%s (%s): %s" % (name, "caller's broker" if passed else "no broker", text))
+    for name, why in fails:
+        print("oracle:", why)
+    print("property violated on this input" if fails else "property holds on this input")
+    return 1 if fails else 0
 
 
 def oracle_single(rep, world, r, case):
@@ -452,6 +628,8 @@ def interleaved_subgraphs(world, ga, gb, subs_b_alone):
 
 def _replay_once(data):
     case = data["case"]
+    if case.get("op") == "fresh-brokers":
+        return replay_fresh(case)
     if case.get("op") == "default-graph":
         env = dict(os.environ, VERIF_REPO=REPO)
         p = subprocess.run([sys.executable, "-c",
@@ -544,6 +722,17 @@ def _replay_once(data):
                  ("run(set of components)", lambda b: dr.run(set(tcomps), broker=b))]
         if len(tcomps) == 1:
             built.append(("run(component)", lambda b: dr.run(tcomps[0], broker=b)))
+    if str(case.get("schedule", "")).startswith("process_dir"):
+        arch = []
+        for par in (False, True):
+            ab, _att, awhy, aerr = W.archive_entry(world, graph, seeds, [], ss, parallel=par)
+            print("process_dir(parallel=%s): %s" % (par, "raised %r" % (aerr,) if aerr is not None else (awhy or plain(W.canon_broker(world, ab)))))
+            if aerr is not None or awhy:
+                bad = True
+            else:
+                arch.append(plain(W.canon_broker(world, ab)))
+        if len(arch) == 2 and arch[0] != arch[1]:
+            bad = True
     for name, fn in tuple(built) + (("_run(serial)", entry_serial),
                      ("group-graph", lambda b: dr.run(world.group_graph(list(graph)), broker=b)),
                      ("run_incremental", lambda b: list(dr.run_incremental(g2(), b))),
